@@ -17,6 +17,8 @@ Definition pc_rl_old (p : pc) : option (cid * fid) :=
   | _ => match pc_kind p with Some (KReload c old) => Some (c, old) | _ => None end
   end.
 Definition pc_sg (p : pc) : option cid := match p with PSgStore c | PSgInit c => Some c | _ => None end.
+(** ... including the point before the CAS (the thread holds a clone of the Dispatch) *)
+Definition pc_sgc (p : pc) : option cid := match p with PSgCas c | PSgStore c | PSgInit c => Some c | _ => None end.
 (** the thread is inside an emission *)
 Definition em_pc (p : pc) : bool :=
   match p with
@@ -39,7 +41,7 @@ Record InvG (s : state) : Prop := {
   C1 : forall c, st_handle s c = true -> instP s c;
   C2 : forall c, st_gdisp s = Some c -> instP s c;
   C3 : forall t c, t < st_n s -> In c (th_scopes (st_thr s t)) -> instP s c;
-  C4 : forall t c, t < st_n s -> pc_sg (pcof s t) = Some c -> instP s c
+  C4 : forall t c, t < st_n s -> pc_sgc (pcof s t) = Some c -> instP s c
 }.
 
 Lemma InvG_init : forall progs, InvG (init progs).
@@ -232,11 +234,11 @@ Lemma C_step : forall W s t s', InvN s -> step W s t = Some s' ->
   (forall c, st_handle s c = true -> instP s c) ->
   (forall c, st_gdisp s = Some c -> instP s c) ->
   (forall u c, u < st_n s -> In c (th_scopes (st_thr s u)) -> instP s c) ->
-  (forall u c, u < st_n s -> pc_sg (pcof s u) = Some c -> instP s c) ->
+  (forall u c, u < st_n s -> pc_sgc (pcof s u) = Some c -> instP s c) ->
   (forall c, st_handle s' c = true -> instP s' c) /\
   (forall c, st_gdisp s' = Some c -> instP s' c) /\
   (forall u c, u < st_n s' -> In c (th_scopes (st_thr s' u)) -> instP s' c) /\
-  (forall u c, u < st_n s' -> pc_sg (pcof s' u) = Some c -> instP s' c).
+  (forall u c, u < st_n s' -> pc_sgc (pcof s' u) = Some c -> instP s' c).
 Proof.
   intros W s t s' IN H c1 c2 c3 c4. frame H. rewrite Hn.
   pose proof (fun c => instP_step _ _ _ _ c H) as Hi.
@@ -259,8 +261,8 @@ Proof.
     + rewrite Hoth by auto. eauto.
   - intros u c Hu. destruct (Nat.eq_dec u t) as [->|Hne].
     + intros E. apply Hi.
-      assert (A : pc_sg (pcof s t) = Some c \/ st_handle s c = true).
-      { revert E. clear c1 c2 c3 c4 Hpo Hi. unfold pcof. step_inv H; rewrite ?Hpc; cbn [pc_sg]; intros E; try discriminate E; auto.
+      assert (A : pc_sgc (pcof s t) = Some c \/ st_handle s c = true).
+      { revert E. clear c1 c2 c3 c4 Hpo Hi. unfold pcof. step_inv H; rewrite ?Hpc; cbn [pc_sgc]; intros E; try discriminate E; auto.
         inversion E; subst; auto. }
       destruct A; eauto.
     + rewrite Hpo by auto. eauto.
